@@ -387,6 +387,14 @@ def fam_shape(tier, kind=R):
     yield c("asarray", "np.asarray(x)", lambda np, x: np.asarray(x), [kind(2)])
     yield c("r_", "np.r_[x,y]", lambda np, x, y: np.r_[x, y], [kind(2), kind(3)], 0)
     yield c("c_", "np.c_[x,y]", lambda np, x, y: np.c_[x, y], [kind(2), kind(2)], 1)
+    # index-trick concatenation of operands with three or more dimensions (c_ joins along the LAST axis, r_ along the first)
+    for k_ in (0, 1):
+        yield c("c_", "np.c_[x,y] 3-D operands", lambda np, x, y: np.c_[x, y], [kind(2, 3, 2), kind(2, 3, 2)], k_)
+        yield c("c_", "np.c_[x,y] 2-D operands", lambda np, x, y: np.c_[x, y], [kind(2, 3), kind(2, 1)], k_)
+        yield c("r_", "np.r_[x,y] 3-D operands", lambda np, x, y: np.r_[x, y], [kind(2, 3, 2), kind(1, 3, 2)], k_)
+        yield c("r_", "np.r_['-1',x,y] 2-D operands", lambda np, x, y: np.r_["-1", x, y], [kind(2, 3), kind(2, 2)], k_)
+    yield c("c_", "np.c_[x,const] 3-D operands", lambda np, x: np.c_[x, onp.ones((2, 3, 1))], [kind(2, 3, 2)], 0)
+    yield c("c_", "np.c_[x, x*2, 1-D]", lambda np, x: np.c_[x, x * 2.0], [kind(3)], 0)
     yield c("select", "np.select([x>0,x<=0],[x*2,x*3])", lambda np, x: np.select([x > 0, x <= 0], [x * 2, x * 3]), [kind(2, 2)])
     yield c("select", "np.select([c],[x],default=y)", lambda np, x, y: np.select([onp.array([True, False, True])], [x], default=y), [kind(3), kind(3)], 0)
     # pad
@@ -510,7 +518,10 @@ def fam_contract(tier, kind=R):
     tds = [((2, 3), (3, 2), 1), ((2, 3), (2, 3), 2), ((2, 3), (2, 2), 0), ((2, 3, 2), (3, 2, 2), 2), ((2, 3, 2), (2, 3), 1), ((2,), (3,), 0), ((3,), (3,), 1),
            ((2, 3), (3, 2), ([1], [0])), ((2, 3), (3, 2), ([-1], [0])), ((2, 3), (2, 3), ([0, 1], [0, 1])), ((2, 3), (3, 2), ([0, 1], [1, 0])), ((2, 3), (3, 2), ([1, 0], [0, 1])),
            ((2, 3, 2), (2, 3), ([0, 1], [0, 1])), ((2, 3, 2), (2, 3), ([-1, 1], [0, -1])), ((2, 3, 2), (3, 2, 2), ((1, 0), (0, 2))), ((2, 3), (3, 2), (1, 0)), ((2, 3), (2, 2), (0, -1)),
-           ((2, 3, 2), (2, 2), ([0], [1])), ((2, 3, 2), (2, 2), ([2, 0], [0, 1])), ((2, 3), (3,), ([1], [0])), ((), (2,), 0), ((2,), (), 0), ((2, 3), (3, 2), ([], []))]
+           ((2, 3, 2), (2, 2), ([0], [1])), ((2, 3, 2), (2, 2), ([2, 0], [0, 1])), ((2, 3), (3,), ([1], [0])), ((), (2,), 0), ((2,), (), 0), ((2, 3), (3, 2), ([], [])),
+           # crossed axis pairings with EQUAL extents (a wrong inverse permutation keeps the shape) and permuted total contractions
+           ((3, 3), (2, 3, 3), ([0, 1], [2, 1])), ((3, 3), (3, 2, 3), ([1, 0], [0, 2])), ((2, 2), (2, 2), ([0, 1], [1, 0])), ((2, 2, 2), (2, 2, 2), ([0, 1, 2], [2, 0, 1])),
+           ((2, 2, 2), (2, 2, 2), ([2, 0], [0, 1])), ((2, 3, 3), (3, 3), ([1, 2], [1, 0])), ((2, 2), (2, 2), ([1, 0], [1, 0]))]
     for a, b, ax in tds:
         for k in (0, 1):
             yield c("tensordot", "np.tensordot(x,y,%r)" % (ax,), lambda np, x, y, _a=ax: np.tensordot(x, y, _a), [kind(*a), kind(*b)], k)
@@ -650,6 +661,13 @@ def fam_fft(tier, kind=R):
                     yield c(n, "fft.%s(x,s=(2,2),axes=%r)" % (n, ax), lambda np, x, _n=n, _a=ax: getattr(np.fft, _n)(x, s=(2, 2), axes=_a), arg)
                 for nm in norms[1:]:
                     yield c(n, "fft.%s(x,norm=%r)" % (n, nm), lambda np, x, _n=n, _m=nm: getattr(np.fft, _n)(x, norm=_m), arg)
+    if kind is R:
+        # the inverse real transforms also accept a REAL-valued half-spectrum (NumPy promotes it): the gradient w.r.t. a
+        # real array is real
+        for n, s_in, kw in [("irfft", (3,), {}), ("irfft", (3,), {"n": 6, "norm": "ortho"}), ("irfft", (2, 3), {"axis": 0}), ("irfft2", (2, 2), {}), ("irfft2", (2, 3), {"s": (2, 2)}),
+                            ("irfftn", (2, 2), {}), ("irfftn", (2, 2, 2), {"axes": (0, 2)}), ("irfftn", (3, 2), {"norm": "forward"})]:
+            yield c(n, "fft.%s(real x%s)" % (n, "".join(",%s=%r" % kv for kv in sorted(kw.items()))), lambda np, x, _n=n, _k=kw: getattr(np.fft, _n)(x, **_k), [R(*s_in)])
+        yield c("irfft", "fft.irfft(tanh(x)) real intermediate", lambda np, x: np.fft.irfft(np.tanh(x)), [R(3)])
     for n in ("fftshift", "ifftshift"):
         for s in [(3,), (4,), (2, 3)]:
             yield c(n, "fft.%s(x)" % n, lambda np, x, _n=n: getattr(np.fft, _n)(x), [kind(*s)])
@@ -733,7 +751,27 @@ def _ext_prims():
     defjvp_argnum(qexp_argnum, lambda argnum, t, ans, args, kwargs: (jx, js)[argnum](t, ans, *args))
     defvjp_argnums(qexp_argnums, lambda argnums, ans, args, kwargs: lambda g: tuple((vx, vs_)[a](ans, *args)(g) for a in argnums))
     defjvp_argnums(qexp_argnums, lambda argnums, ts, ans, args, kwargs: sum((jx, js)[a](t, ans, *args) for a, t in zip(argnums, ts)))
-    _EXT.update(qdot=qdot, qscale=qscale, qphase=qphase, qexp_pos=qexp_pos, qexp_argnum=qexp_argnum, qexp_argnums=qexp_argnums)
+    # PASS-THROUGH raw functions (the argument object itself is handed back) whose registered rules are NOT the identity:
+    # a scaling by 3 (a "gradient scaling" layer), a stop-gradient (None), a per-argnum rule.  The registered rule is what
+    # must be used and routed, whatever the raw function returns.
+    @primitive
+    def qpass3(x):
+        return x
+
+    defvjp(qpass3, lambda ans, x: lambda g: 3.0 * g)
+    defjvp(qpass3, lambda t, ans, x: 3.0 * t)
+
+    @primitive
+    def qstop(x, s_):
+        return x
+
+    defvjp(qstop, None, lambda ans, x, s_: lambda g: anp.sum(g) * 0.0 + 0.0 * s_)
+    defjvp(qstop, None, lambda t, ans, x, s_: t * 0.0 * x)
+
+    qpass_argnum = primitive(lambda x, s_: x)
+    defvjp_argnum(qpass_argnum, lambda argnum, ans, args, kwargs: (lambda g: 5.0 * g) if argnum == 0 else (lambda g: anp.sum(g) * 0.0))
+    defjvp_argnum(qpass_argnum, lambda argnum, t, ans, args, kwargs: 5.0 * t if argnum == 0 else 0.0 * ans * t)
+    _EXT.update(qdot=qdot, qscale=qscale, qphase=qphase, qexp_pos=qexp_pos, qexp_argnum=qexp_argnum, qexp_argnums=qexp_argnums, qpass3=qpass3, qstop=qstop, qpass_argnum=qpass_argnum)
     return _EXT
 
 
@@ -765,6 +803,30 @@ def fam_extension(tier, kind=R):
                 yield c
         yield Config("ext-none", "user primitive qphase(x[2], t[3]) complex output, real t registered as None", lambda np, x, t: E["qphase"](x, t), [R(2), R(3)], 1)
         yield Config("ext-none", "sum(qscale(x, s)) + s**2 : None position also used elsewhere", lambda np, x, s_: np.sum(E["qscale"](x, s_)) + s_ ** 2, [R(3), SC], 1)
+
+
+def extension_pass_configs():
+    """user primitives whose RAW function hands back its argument object while the registered rules are not the identity.
+    Value and derivative are deliberately inconsistent (that is the point: the registered rule must be used), so these
+    configurations carry the function the RULES describe as their first-order oracle and are used by the extension-contract
+    check (C17) only - not by the value-transparency or second-order checks, for which they would be ill-posed."""
+    import autograd
+
+    E = _ext_prims()
+    out = []
+    # pass-through raw functions with non-identity registered rules; the oracle is the function the RULES describe
+    def pt(lab, call, oracle, args, k=0):
+        c_ = Config("ext-pass", lab, call, args, k)
+        c_.oracle = oracle
+        return c_
+
+    out.append(pt("pass-through primitive with rules scaling by 3 (scalar)", lambda np, x: E["qpass3"](x) * x, lambda np, x: 2.0 * x * x, [SC]))
+    out.append(pt("pass-through primitive with rules scaling by 3 (array), then sin", lambda np, x: np.sin(E["qpass3"](x)) + x, lambda np, x: 3.0 * np.sin(x) + x, [R(2)]))
+    out.append(pt("pass-through primitive whose argument is registered as None (stop-gradient) plus a live path", lambda np, x: E["qstop"](x, 2.0) * 4.0 + x * x, lambda np, x: x * x, [R(2)]))
+    out.append(pt("pass-through primitive via defvjp_argnum / defjvp_argnum scaling by 5", lambda np, x: E["qpass_argnum"](x, 2.0) + x, lambda np, x: 6.0 * x, [R(2)]))
+    out.append(pt("NESTED pass-through scaling inside an inner derivative (forward and reverse)", lambda np, x: x * autograd.elementwise_grad(lambda y: E["qpass3"](y))(x) + x * autograd.make_jvp(lambda y: E["qpass3"](y))(x)(onp.ones(2))[1],
+             lambda np, x: 6.0 * x, [R(2)]))
+    return out
 
 
 FAMILIES = {"extension": fam_extension, "operators": fam_operators, "unary": fam_unary, "binary": fam_binary, "reduce": fam_reduce, "shape": fam_shape, "contract": fam_contract,
@@ -982,6 +1044,16 @@ def program_grid(tier):
         return b * a
 
     p("diamond sin", diamond, [R(2)])
+    # contractions with explicit axis lists inside a graph: both operands built from the same value (diamond), crossed
+    # pairing of two contracted axes with EQUAL extents (a wrong inverse permutation in the rule keeps every shape)
+    def td_cross(np, x):
+        a = np.outer(x, np.sin(x))  # (3, 3)
+        b = np.stack([np.outer(x, x), np.outer(np.cos(x), x)])  # (2, 3, 3)
+        return np.tensordot(a, b, [(0, 1), (2, 1)]) + np.tensordot(b, a, [(2, 1), (0, 1)]) * 0.5
+
+    p("tensordot crossed pairing, both operands from one value", td_cross, [R(3)])
+    p("tensordot permuted total contraction trace(A @ B) with A, B from one value", lambda np, x: np.tensordot(np.outer(x, x * x), np.outer(np.sin(x), x), ([0, 1], [1, 0])) * x, [R(2)])
+    p("einsum with a crossed subscript pairing next to tensordot", lambda np, x: np.einsum("ij,kji->k", np.outer(x, np.sin(x)), np.stack([np.outer(x, x), np.outer(np.cos(x), x)])) + np.sum(np.tensordot(np.outer(x, x), np.outer(x, x), ([1, 0], [0, 1]))), [R(2)])
     p("multi-edge x*x", lambda np, x: x * x, [R(2)])
     p("multi-edge dot(x,x)", lambda np, x: np.dot(x, x), [R(2, 2)])
     p("multi-edge x@x@x", lambda np, x: x @ x @ x, [R(2, 2)])
